@@ -778,7 +778,9 @@ func (d *decoder[T]) kArray(f *decFnInfo, rv reflect.Value) {
 	rvlen := rv.Len() // same as cap
 	hasLen := containerLenS >= 0
 	if hasLen && containerLenS > rvlen {
-		halt.errorf("cannot decode into array with length: %v, less than container length: %v", any(rvlen), any(containerLenS))
+		// as documented for ErrorIfNoArrayExpand (and as the fast-path and the no-length formats do):
+		// an error only if that option is set, else the excess elements are skipped in the loop below
+		d.arrayCannotExpand(rvlen, containerLenS)
 	}
 
 	// consider creating new element once, and just decoding into it.
